@@ -377,16 +377,31 @@ where
             &mut self.radio_buffer,
             &SendData { data, fport, confirmed },
         )?;
-        // Transmit our data packet
-        let ms = self
-            .radio
-            .tx(tx_config, self.radio_buffer.as_ref_for_read())
-            .await
-            .map_err(Error::Radio)?;
+        // From here on the frame counter has been handed to the radio: whatever fails below,
+        // the uplink must be concluded so that the counter is never used for another frame.
+        let fcnt_up = self.mac.get_fcnt_up();
+        let result = async {
+            // Transmit our data packet
+            let ms = self
+                .radio
+                .tx(tx_config, self.radio_buffer.as_ref_for_read())
+                .await
+                .map_err(Error::Radio)?;
 
-        // Wait for received data within window
-        self.timer.reset();
-        Ok(self.rx_downlink(&Frame::Data, ms, &rx_windows).await?.into())
+            // Wait for received data within window
+            self.timer.reset();
+            self.rx_downlink(&Frame::Data, ms, &rx_windows).await
+        }
+        .await;
+        match result {
+            Ok(response) => Ok(response.into()),
+            Err(e) => {
+                if self.mac.get_fcnt_up() == fcnt_up {
+                    let _ = self.mac.rx2_complete();
+                }
+                Err(e)
+            }
+        }
     }
 
     /// Take the downlink data from the device. This is typically called after a
